@@ -458,6 +458,42 @@ def normalise(text, cnt, vis=True):
 # --------------------------------------------------------------------------
 # N14: automatic inlining of small helper functions that the templates do not know about
 AUTO_INLINE = [x for x in os.environ.get('VERIF_AUTO_INLINE', '').split(',') if x]
+# robustness modes (set by the runner, never on the first, deciding-as-is attempt):
+#   DROP_LOST_HINTS: a //@before / //@after block whose anchor is lost is left out (hints are proof aids: leaving one out can make a
+#                    proof fail, never succeed wrongly); the function is recorded in meta['dropped_hints']
+#   FORCE_STUB:      functions emitted contract-only (external_body) because their body cannot be brought under contract on this
+#                    tree (lost rule anchor, front-end rejection); recorded in meta['isolated']
+DROP_LOST_HINTS = False
+FORCE_STUB = set()
+#   ISOLATE:         a //@fn block whose body rules fail (lost closure / loop / substitution anchor) is emitted contract-only
+#                    instead of failing the whole unit; recorded in meta['isolated'] with the reason
+ISOLATE = False
+# the runner verifies units in parallel threads: options are per thread
+import threading  # noqa: E402
+_tl = threading.local()
+
+
+def opt(name, default):
+    return getattr(_tl, name, default)
+
+
+
+def subset_flags(body):
+    """Constructs Verus 0.2026.09.13 is known to handle imprecisely (tools/subset_probes): a function using one is outside the
+    verified subset, and a failed obligation in it is 'undecided', never a violation."""
+    flags = []
+    try:
+        mask = code_mask(body)
+        code = ''.join(c if m else ' ' for c, m in zip(body, mask))
+    except Exception:
+        code = body
+    # match-arm guard:  <pattern> if <cond> =>   (no '{', '}' or ';' between the `if` and the `=>`)
+    for m in re.finditer(r'\bif\b([^{};]*?)=>', code):
+        if '=>' not in m.group(1):
+            flags.append('match-arm guard')
+            break
+    return flags
+
 
 
 def find_helper(relfile, name):
@@ -511,7 +547,7 @@ def strip_code_words(text):
 
 
 def auto_inline(body, relfile, cnt):
-    for name in AUTO_INLINE:
+    for name in opt('auto_inline', AUTO_INLINE):
         h = find_helper(relfile, name)
         if not h:
             continue
@@ -849,8 +885,32 @@ def process_fn_block(head, lines, meta, stub=False):
             raise ExtractError('cannot name return value of %s (no return type)' % name)
         sig = sig[:pc + 1] + m.group(1) + '(' + ret + ': ' + m.group(2).strip() + ')' + m.group(3)
 
+    fullname = (implkey + '::' if implkey != '-' else '') + name
+    fstub = opt('force_stub', FORCE_STUB)
+    forced = (not stub) and (fullname in fstub or name in fstub)
+    if stub or forced:
+        # caller-side view (or an isolated function): same signature and the same contract text, body not used (external_body)
+        out = ['#[verifier::external_body]', sig.rstrip()]
+        mode = None
+        for l in spec:
+            st = l.strip()
+            if st.startswith('requires'):
+                mode = 'req'
+            elif st.startswith('ensures'):
+                mode = 'ens'
+            if mode == 'ens':
+                l = re.sub(r'\[(C\d\d\.[\w\-.]+)\]', r'(\1)', l)
+            out.append('/*@inj*/' + l)
+        out.append('{ unimplemented!() }')
+        if forced:
+            labs = sorted(set(re.findall(r'\[(C\d\d\.[\w\-.]+)\]', '\n'.join(lines))))
+            meta.setdefault('isolated', {})[fullname] = dict(labels=labs)
+        else:
+            meta['stubs'].append(fullname)
+        return '\n'.join(out)
+
     # ---- body
-    if AUTO_INLINE:
+    if opt('auto_inline', AUTO_INLINE):
         body = auto_inline(body, relfile, cnt)
     body = normalise(body, cnt, vis=False)
     for sb in subs:
@@ -890,28 +950,14 @@ def process_fn_block(head, lines, meta, stub=False):
                     at = hits[kk - 1] + (1 if mode == 'after' else 0)
                     break
             if at is None:
+                if opt('drop_lost_hints', DROP_LOST_HINTS):
+                    meta.setdefault('dropped_hints', {}).setdefault(fullname, []).append(anchor[0][0])
+                    continue
                 raise ExtractError('lost anchor in %s: line %r not found' % (name, anchor))
             blines[at:at] = ['/*@inj*/' + l for l in ins]
         body = '\n'.join(blines)
 
     out = []
-    if stub:
-        # caller-side view: same signature and the same contract text, body not used (external_body)
-        out.append('#[verifier::external_body]')
-        out.append(sig.rstrip())
-        mode = None
-        for l in spec:
-            st = l.strip()
-            if st.startswith('requires'):
-                mode = 'req'
-            elif st.startswith('ensures'):
-                mode = 'ens'
-            if mode == 'ens':
-                l = re.sub(r'\[(C\d\d\.[\w\-.]+)\]', r'(\1)', l)
-            out.append('/*@inj*/' + l)
-        out.append('{ unimplemented!() }')
-        meta['stubs'].append((implkey + '::' if implkey != '-' else '') + name)
-        return '\n'.join(out)
     for a in attrs:
         out.append(a)
     out.append(sig.rstrip())
@@ -921,7 +967,7 @@ def process_fn_block(head, lines, meta, stub=False):
     text = '\n'.join(out)
     meta['functions'].append(dict(
         name=(implkey + '::' if implkey != '-' else '') + name, file='src/' + relfile,
-        lines=[line_no, line_end], sha256=hashlib.sha256(orig.encode()).hexdigest(), rules=cnt,
+        lines=[line_no, line_end], sha256=hashlib.sha256(orig.encode()).hexdigest(), rules=cnt, outside_subset=subset_flags(body),
         hoists=[list(map(str, s[:3])) for s in subs]))
     return text
 
@@ -961,7 +1007,12 @@ def include(path, base):
     return out
 
 
-def generate(template_path, out_path):
+def generate(template_path, out_path, opts=None):
+    opts = opts or {}
+    _tl.auto_inline = list(opts.get('auto_inline', AUTO_INLINE))
+    _tl.drop_lost_hints = bool(opts.get('drop_lost_hints', DROP_LOST_HINTS))
+    _tl.force_stub = set(opts.get('force_stub', FORCE_STUB))
+    _tl.isolate = bool(opts.get('isolate', ISOLATE))
     base = os.path.dirname(os.path.abspath(template_path))
     lines = open(template_path).read().split('\n')
     # resolve includes first
@@ -995,8 +1046,20 @@ def generate(template_path, out_path):
             if stubmode:
                 out.append(process_fn_block(s[6:].strip(), blk, meta, stub=True))
             else:
-                out.append('/*@fnstart ' + s[6:].strip() + '*/')
-                out.append(process_fn_block(s[6:].strip(), blk, meta))
+                head = s[6:].strip()
+                try:
+                    txt = process_fn_block(head, blk, meta)
+                except ExtractError as e:
+                    if not opt('isolate', False):
+                        raise
+                    rest = head[len(head.split()[0]):].strip()
+                    ik, nm = rest.rsplit('::', 1)
+                    full = (ik.strip() + '::' if ik.strip() != '-' else '') + nm.strip()
+                    _tl.force_stub = set(opt('force_stub', set())) | {full}
+                    txt = process_fn_block(head, blk, meta)  # contract only; a signature-level failure still propagates
+                    meta.setdefault('isolated', {}).setdefault(full, {})['reason'] = str(e)
+                out.append('/*@fnstart ' + head + '*/')
+                out.append(txt)
                 out.append('/*@fnend*/')
             i = j + 1
         elif s.startswith('//@stubmode '):
